@@ -127,7 +127,8 @@ def step (st : State) (w : List String) : State × String :=
   | ["autota", "new", ks] =>
     match parseRefs ks with
     | some l =>
-      let st' : State := { cfg := l, sys := {}, started := true }
+      -- the clock starts late enough for seeded files to carry old FirstSeen stamps
+      let st' : State := { cfg := l, sys := { now := 4000000000 }, started := true }
       (st', obs st'.sys)
     | none => (st, "bad-op")
   | ["autota", "seed", ss, ts] =>
